@@ -37,7 +37,7 @@ PROPS["C09"] = dict(
              dict(name="fmtfloat", family="fmtfloat", quick=500, thorough=40000, nontrivial=r".", shard=125)],
     trusted_base=TB_EXP, modelled=MOD_EXP,
     assumptions=["operands representable in int64/float64", "float32 values concatenated to strings are UNMODELLED (float64: modelled by Exp/FloatFmt.v, validated by the fmtfloat stream over arbitrary bit patterns)"],
-    level_text="Theorems over the lexer / precedence-climbing parser / evaluator models: the parser groups exactly as the generated ANTLR parser does (print/parse round trip over the whole AST with the levels of goexpression_parser.go), integer operators are the two's-complement int64 operations, mixed operands promote to float64 (Flocq), wrong kinds and division by zero / negative shifts are errors; tied to the code by diffing parse trees and typed results on generated expressions, plus an independent Go reference evaluation as the direct oracle.",
+    level_text="Float64 + - * / and comparisons are IEEE-754 round-to-nearest-even against the real numbers (Flocq: float_add_is_ieee ...), float64(i) is correct rounding, decimal literals are correctly rounded. Theorems over the lexer / precedence-climbing parser / evaluator models: the parser groups exactly as the generated ANTLR parser does (print/parse round trip over the whole AST with the levels of goexpression_parser.go), integer operators are the two's-complement int64 operations, mixed operands promote to float64 (Flocq), wrong kinds and division by zero / negative shifts are errors; tied to the code by diffing parse trees and typed results on generated expressions, plus an independent Go reference evaluation as the direct oracle.",
     level_note="The conditional operator is left-associative in the generated parser: ternary_right_assoc_refuted + KNOWN_FINDINGS (needs ANTLR regeneration). Float text formatting and complex numbers are unmodelled.",
 )
 PROPS["C10"] = dict(
